@@ -240,6 +240,24 @@ def Info.maintenance (inf : Info) (keyspaces : List (String × Bool × List Stri
     else withEmpty
   ⟨tables, false⟩
 
+/-- A keyspace of the fetched schema as `perform_maintenance` reads it: name, `tablet_based`, the names of its
+`tables` and of its materialized `views` (views are tablet-based too and live in a separate map). -/
+structure KsMeta where
+  name : String
+  tabletBased : Bool
+  tables : List String
+  views : List String
+  deriving DecidableEq, Repr
+
+/-- what the two places that look at tables and views see: `tables.contains_key(t) || views.contains_key(t)`
+(609-613) is membership in `tables ++ views`, `tables.keys().chain(views.keys())` (623) is their concatenation -/
+def KsMeta.entry (k : KsMeta) : String × Bool × List String := (k.name, k.tabletBased, k.tables ++ k.views)
+
+/-- `TabletsInfo::perform_maintenance` on keyspaces with tables and views kept apart -/
+def Info.maintenanceKs (inf : Info) (keyspaces : List KsMeta) (removed : List Nat)
+    (nodes recreated : List (Nat × Node)) : Info :=
+  inf.maintenance (keyspaces.map KsMeta.entry) removed nodes recreated
+
 /-! ### payload validation -/
 
 inductive PayloadErr where
